@@ -935,3 +935,7 @@ m('c16-no-integer-insig-digit-always-first', ['C16'], 'format_ascii_digits_no_in
 m('c16-no-integer-trailing-zeros-from-scale', ['C16'], 'format_ascii_digits_no_integer:layout[digits-destination]', [
   ('src/impl_fmt.rs', "            let trailing_zeros = target_scale - digit_scale;", "            let trailing_zeros = target_scale - scale.min(target_scale);")],
   'trailing zero count computed from the scale before rounding: digits land one place too far left after a carry')
+# ---- limb modulus
+m('c03-hash-trim-guarded-by-limb-mod', ['C03'], 'limb-modulus', [
+  ('src/lib.rs', "        let zero = self.int_val.is_zero();\n        if scale > 0 && !zero {", "        let zero = self.int_val.is_zero();\n        let ends_in_zero = self.int_val.iter_u64_digits().next().map_or(false, |lo| lo % 10 == 0);\n        if scale > 0 && !zero && ends_in_zero {")],
+  'trailing-zero trimming skipped when the low 64-bit word is not a multiple of 10: 1 and 1.000...0 (21 zeros) hash differently')
